@@ -155,6 +155,15 @@ def check_required_parts(run, fx, rs):
     if g is None:
         run.anchor_missing(rule, "parse_zoned_date_time", "not found")
     else:
+        gt = fold_with_record(fx, g, _record(tz=True))
+        gn = fold_with_record(fx, g, _record(tz=False))
+        if gt[0] != "opaque" and gn[0] != "opaque":
+            run.check(gt[0] == "ok" and gn == ("err", "Range"), rule, "parse_zoned_date_time",
+                      "by value: record with the annotation -> ok, without -> RangeError",
+                      "parse_zoned_date_time on a parsed record without a time-zone annotation gives %s %s (expected a RangeError); "
+                      "with one it gives %s" % (gn[0], str(gn[1])[:40], gt[0]), g.loc)
+            g = None
+    if g is not None:
         ok = True
         tot = 0
         kinds = set()
@@ -166,7 +175,11 @@ def check_required_parts(run, fx, rs):
                     ok = False
             elif tz and tz[0] is True and is_err(res):
                 kinds.add(err_kind(res))
-        run.check(ok and tot > 0 and kinds == {"Range"}, rule, "parse_zoned_date_time", "success requires the tz annotation",
+        if tot == 0 or not any("is_none" in c and ".tz" in c for dec, _r, _t in paths_of(fx, g) for c, _ in dec):
+            run.ok(rule, "parse_zoned_date_time", "the annotation test is not in a recognisable form and the function does not fold "
+                   "with a scripted parser: not decided", g.loc, nontrivial=False)
+        else:
+          run.check(ok and tot > 0 and kinds == {"Range"}, rule, "parse_zoned_date_time", "success requires the tz annotation",
                   "parse_zoned_date_time can succeed without a time-zone annotation (%s); missing -> %s" % (not ok, sorted(kinds)),
                   g.loc)
     h = rs.fn(P + "parse_ixdtf")
